@@ -25,6 +25,12 @@ pub struct Case {
     /// > 1: the postures are queried by that many concurrent simulated caller tasks sharing the robot
     #[serde(default)]
     pub clients: usize,
+    /// > 0: the postures are queried by that many jobs of a parallel iterator, i.e. the callers
+    /// ARE pool workers (an application that checks candidates in its own `par_iter`): nested
+    /// parallelism, `current_thread_index()` is Some, a worker waiting for its inner check runs
+    /// other callers' jobs in the meantime
+    #[serde(default)]
+    pub via_pool: usize,
     /// history: afterwards the SAME robot object gets this safety table through its public field
     /// (and optionally loses its last environment body) and is queried again
     #[serde(default)]
@@ -68,6 +74,7 @@ fn execute(robot: &Arc<KinematicsWithShape>, case: &Case, cfg: &SimCfg) -> SimOu
     let qs = case.qs.clone();
     let near = case.near.as_ref().map(|n| Arc::new(n.build()));
     let clients = case.clients.max(1);
+    let via_pool = case.via_pool;
     let sibling: Option<Arc<KinematicsWithShape>> = sibling_cell(case).map(|c| Arc::new(c.build_robot()));
     sim::simulate(cfg, move || {
         let sib = sibling.clone();
@@ -79,6 +86,20 @@ fn execute(robot: &Arc<KinematicsWithShape>, case: &Case, cfg: &SimCfg) -> SimOu
             let sibling = sib.as_ref().map(|s| (s.collides(q), s.collision_details(q)));
             QObs { collides, body_collides, details, near, sibling }
         };
+        if via_pool > 0 {
+            use sim_rayon::prelude::*;
+            let slots: std::sync::Mutex<Vec<Option<QObs>>> = std::sync::Mutex::new(vec![None; qs.len()]);
+            (0..via_pool).into_par_iter().for_each(|c| {
+                let mut i = c;
+                while i < qs.len() {
+                    let o = one(&robot, &qs[i], &near);
+                    slots.lock().unwrap()[i] = Some(o);
+                    i += via_pool;
+                }
+            });
+            let v = slots.into_inner().unwrap();
+            return v.into_iter().map(|o| o.expect("pool job did not deliver")).collect();
+        }
         if clients <= 1 {
             return qs.iter().map(|q| one(&robot, q, &near)).collect();
         }
@@ -267,7 +288,7 @@ fn judge_full(
             if dropped {
                 r.body.collision_environment.pop();
             }
-            let case2 = Case { cell: cell2, near: near2, qs: case.qs.clone(), cfgs: vec![case.cfgs[0].clone()], clients: case.clients, reconfigure: None, sibling_base: None };
+            let case2 = Case { cell: cell2, near: near2, qs: case.qs.clone(), cfgs: vec![case.cfgs[0].clone()], clients: case.clients, via_pool: case.via_pool, reconfigure: None, sibling_base: None };
             for mut f in judge_phase(&case2, robot, &mut |_, out| observe(usize::MAX, out), &mut |_| {}) {
                 f.clause = format!("{}/after-reconfiguration", f.clause);
                 f.signature = format!("{}/after-reconfiguration", f.signature);
@@ -467,6 +488,16 @@ fn candidates(case: &Case) -> Vec<Case> {
         let mut c = case.clone();
         c.clients = 1;
         out.push(c);
+    }
+    if case.via_pool > 0 {
+        let mut c = case.clone();
+        c.via_pool = 0;
+        out.push(c);
+        if case.via_pool > 1 {
+            let mut c = case.clone();
+            c.via_pool -= 1;
+            out.push(c);
+        }
     }
     if case.sibling_base.is_some() {
         let mut c = case.clone();
@@ -717,7 +748,12 @@ pub fn gen_case(seed: u64, shard: u64, run: u64, t: &Tier) -> (Case, Vec<Relatio
         reconfigure = None;
         sibling_base = None;
     }
-    (Case { cell, near, qs, cfgs, clients, reconfigure, sibling_base }, rels)
+    // callers that are pool workers themselves (a fifth of the single-caller scenarios)
+    let via_pool = {
+        let mut v = Rng::derive(seed, shard, run, "c10.via-pool");
+        if clients == 1 && v.chance(0.2) { v.range_usize(1, 4) } else { 0 }
+    };
+    (Case { cell, near, qs, cfgs, clients, via_pool, reconfigure, sibling_base }, rels)
 }
 
 pub fn run(tier_name: &str, seed: u64) -> i32 {
@@ -737,6 +773,9 @@ pub fn run(tier_name: &str, seed: u64) -> i32 {
             let mut pair_stats: Vec<(String, u64)> = Vec::new();
             if case.clients > 1 {
                 tally.bump("scenarios_with_concurrent_callers", 1);
+            }
+            if case.via_pool > 0 {
+                tally.bump("scenarios_with_callers_on_pool_workers", 1);
             }
             if case.sibling_base.is_some() {
                 tally.bump("scenarios_alternating_with_a_sibling_robot", 1);
